@@ -223,7 +223,8 @@ Qed.
 
 (** what must hold of a message for the marshaller to accept it (besides the size limits) *)
 Definition fields_valid (m : msg) : Prop :=
-  names_valid m /\ (m_body m <> [] -> validate_signature (m_sig m) = Ok tt).
+  names_valid m /\ ((m_body m <> [] -> validate_signature (m_sig m) = Ok tt)
+                    /\ (m_nfds m <> 0 -> m_live m = m_nfds m)).       (* no descriptor of the body has been taken *)
 
 Theorem marshal_fields_spec m b b' : rust_typed m -> marshal_fields m b = Ok b' ->
   seg_ok (m_be m) b b' (fields_valid m) (fields_of_msg m).
@@ -264,12 +265,13 @@ Proof.
     - injection H8 as <-. split; [lia|]. intros _. split; [intros C; now elim C|apply emits_nil].
     - destruct (signature_writer_ok be _ _ _ H8) as [M S]. split; [exact M|]. intros Hl. destruct (S Hl) as [V E].
       split; [intros _; exact V|now apply emits_one]. }
-  assert (S9 : seg_ok be b8 b9 True (if m_nfds m =? 0 then [] else [u32_field UNIX_FDS (m_nfds m)])).
+  assert (S9 : seg_ok be b8 b9 (m_nfds m <> 0 -> m_live m = m_nfds m) (if m_nfds m =? 0 then [] else [u32_field UNIX_FDS (m_nfds m)])).
   { unfold if_true in H9. destruct (N.eqb_spec (m_nfds m) 0) as [E0|E0]; cbn [negb] in H9.
-    - injection H9 as <-. split; [lia|]. intros _. split; [exact I|apply emits_nil].
-    - unfold marshal_header_unix_fds in H9. injection H9 as <-.
+    - injection H9 as <-. split; [lia|]. intros _. split; [intros C; now elim C|apply emits_nil].
+    - destruct (N.eqb_spec (m_live m) (m_nfds m)) as [El|El]; cbn [negb] in H9; [|discriminate].
+      unfold marshal_header_unix_fds in H9. injection H9 as <-.
       destruct (u32_writer_ok be 9 (m_nfds m mod 2 ^ 32) b8 ltac:(lia)) as [M S]. split; [exact M|].
-      intros Hl. destruct (S Hl) as [_ E]. split; [exact I|]. apply emits_one. rewrite E.
+      intros Hl. destruct (S Hl) as [_ E]. split; [intros _; exact El|]. apply emits_one. rewrite E.
       rewrite !u32_field_enc by (unfold UNIX_FDS; lia).
       now rewrite enc4_mod. }
   pose proof (seg_chain _ _ _ _ _ _ _ _ S1 (seg_chain _ _ _ _ _ _ _ _ S2 (seg_chain _ _ _ _ _ _ _ _ S3
@@ -364,7 +366,7 @@ Lemma busname_len s : ValidBusName s -> byte_length s <= MAX_NAME. Proof. intros
 Lemma leaves_ok m : rust_typed m -> fields_valid m -> opt_all (fun s => len s < 2 ^ 32) (m_object m) ->
   Forall (leaf_ok (m_be m)) (fields_of_msg m).
 Proof.
-  intros T [(Vi & Vd & Vs & Vm & Vp & Ve) Vsig] Hlen. unfold fields_of_msg. repeat rewrite Forall_app. repeat split.
+  intros T [(Vi & Vd & Vs & Vm & Vp & Ve) [Vsig Vlive]] Hlen. unfold fields_of_msg. repeat rewrite Forall_app. repeat split.
   - apply Forall_opt_field. intros n E. apply leaf_u32; [unfold REPLY_SERIAL; lia|].
     pose proof (rt_rs m T) as R. rewrite E in R. cbn in R. unfold nonzero_u32 in R. lia.
   - apply Forall_opt_field. intros s E. rewrite E in Vi. cbn in Vi.
@@ -420,6 +422,7 @@ Proof.
     destruct (signature_writer_ok (m_be m) _ _ _ H8) as [M _]. exact M. }
   assert (M9 : len b8 <= len b9).
   { unfold if_true in H9. destruct (negb (m_nfds m =? 0)); [|injection H9 as <-; lia].
+    destruct (negb (m_live m =? m_nfds m)); [discriminate|].
     unfold marshal_header_unix_fds in H9. injection H9 as <-.
     destruct (u32_writer_ok (m_be m) 9 (m_nfds m mod 2 ^ 32) b8 ltac:(lia)) as [M _]. exact M. }
   rewrite len_write_string in M7. lia.
@@ -436,6 +439,13 @@ Proof.
   assert (2 ^ 26 < 2 ^ 32) by (apply N.pow_lt_mono_r; lia). lia.
 Qed.
 
+Lemma has_required_fields_iff m : has_required_fields m = true <-> required_present m.
+Proof.
+  unfold has_required_fields, required_present.
+  destruct (m_typ m); destruct (m_object m), (m_member m), (m_interface m), (m_error_name m), (m_reply_serial m); cbn;
+    intuition (try discriminate; try congruence).
+Qed.
+
 Definition pre12 (m : msg) (serial : N) : list N :=
   [endian_flag (m_be m); type_no (m_typ m); m_flags m; 1] ++ [0; 0; 0; 0] ++ enc (m_be m) 4 serial.
 
@@ -443,13 +453,15 @@ Theorem marshal_msg_spec m serial hb : rust_typed m -> marshal_msg m serial = Ok
   hb = spec_header m serial
   /\ fields_valid m /\ m_typ m <> MInvalid
   /\ wt (header_value m) T_FIELDS = true /\ encodable (m_be m) 12 0 (header_value m) = true
-  /\ len hb + len (m_body m) <= 2 ^ 27.
+  /\ len hb + len (m_body m) <= 2 ^ 27
+  /\ required_present m.
 Proof.
   intros T H. unfold marshal_msg in H. apply bind_ok in H. destruct H as (hbuf & Hh & H).
   destruct (N.ltb_spec Header.MAX_MESSAGE_LEN (len (pad_to 8 hbuf) + len (m_body m))) as [|Hmax]; [discriminate|].
   injection H as <-. unfold Header.MAX_MESSAGE_LEN in Hmax.
   unfold marshal_header in Hh. destruct (type_code (m_typ m)) as [c|] eqn:Ec; [|discriminate].
   destruct (type_code_no _ _ Ec) as [-> Hninv].
+  destruct (has_required_fields m) eqn:Ereq; cbn [negb] in Hh; [|discriminate]. apply has_required_fields_iff in Ereq.
   set (be := m_be m) in *.
   set (w := write_u32 be serial _) in Hh.
   assert (Ew : w = pre12 m serial).
@@ -488,7 +500,7 @@ Proof.
   assert (Hpath : opt_all (fun s => len s < 2 ^ 32) (m_object m)).
   { pose proof (marshal_fields_path_len m b16 bf Hf T) as Hp. destruct (m_object m); cbn [opt_all] in *; [lia|exact I]. }
   pose proof (leaves_ok m T Hvalid Hpath) as Hleaf. fold be in Hleaf.
-  split; [|split; [exact Hvalid|split; [exact Hninv|split; [|split]]]].
+  split; [|split; [exact Hvalid|split; [exact Hninv|split; [|split; [|split; [|exact Ereq]]]]]].
   - (* the bytes *)
     rewrite pad_to_spec by lia. unfold spec_header, spec_header_unpadded. cbv zeta. fold be.
     rewrite <- (Eunp (len (m_body m))).
@@ -539,13 +551,13 @@ Proof.
   { unfold if_true. destruct (negb _); [|exact I]. unfold marshal_header_signature.
     apply total_bind; [exact (validate_signature_total (m_sig m))|intros _; exact I]. }
   apply total_bind; [|intros b9; exact I].
-  unfold if_true. destruct (negb _); exact I.
+  unfold if_true. destruct (negb (m_nfds m =? 0)); [|exact I]. destruct (negb _); exact I.
 Qed.
 
 Theorem marshal_msg_total m serial : ok_or_err (marshal_msg m serial).
 Proof.
   unfold marshal_msg. apply total_bind.
-  - unfold marshal_header. destruct (type_code (m_typ m)); [|exact I].
+  - unfold marshal_header. destruct (type_code (m_typ m)); [|exact I]. destruct (negb (has_required_fields m)); [exact I|].
     apply total_bind; [apply marshal_fields_total|intros bf].
     apply total_bind; [|intros l; exact I].
     unfold check_marshalled_array_len. destruct (_ <? _); exact I.
@@ -553,11 +565,14 @@ Proof.
 Qed.
 
 (** ** refusal: an invalid name or the Invalid type cannot be marshalled *)
-Theorem marshal_msg_refuse m serial : rust_typed m -> (~ names_valid m \/ m_typ m = MInvalid) -> marshal_msg m serial = Err.
+Theorem marshal_msg_refuse m serial : rust_typed m ->
+  (~ names_valid m \/ m_typ m = MInvalid \/ ~ required_present m \/ (m_nfds m <> 0 /\ m_live m <> m_nfds m)) ->
+  marshal_msg m serial = Err.
 Proof.
   intros T H. pose proof (marshal_msg_total m serial) as Ht.
   destruct (marshal_msg m serial) as [hb| | | |] eqn:E; try contradiction; [|reflexivity].
-  destruct (marshal_msg_spec m serial hb T E) as (_ & [Hv _] & Hn & _). destruct H as [H|H]; [now elim H|now elim Hn].
+  destruct (marshal_msg_spec m serial hb T E) as (_ & [Hv [_ Hl]] & Hn & _ & _ & _ & Hr).
+  destruct H as [H|[H|[H|[H1 H2]]]]; [now elim H|now elim Hn|now elim H|now elim H2; apply Hl].
 Qed.
 
 (** ** what the header says about SIGNATURE and UNIX_FDS *)
